@@ -9,8 +9,8 @@
    With a maxRepeat limit M copies are completed in document order until M have been completed in
    total; from then on every repeater still running or met later yields just one copy.
 
-   What is proved, for ALL inputs: the tokens of every numbering form (C02_tokenize_numbering*), the
-   value and padding a `$` run prints under a repeater stack (C02_numbering_*, C02_pad_*, C02_decimal),
+   What is proved, for ALL inputs: the tokens of every numbering form (C02_tokenize_numbering, C02_tokenize_numbering_base), the
+   value and padding a `$` run prints under a repeater stack (C02_numbering_value, C02_numbering_in_copy, C02_pad_width, C02_pad_zeros, C02_decimal),
    and the whole converter -- copy loop, repeater stack, budget -- against a pure unrolling spec
    (C02_limit_full = closed form for every budget; C02_convert_count, C02_guard_enough,
    C02_guard_step, C02_guard_exhausted, C02_unrepeated_inherits as its readable consequences).
